@@ -26,10 +26,11 @@ import (
 )
 
 type Step struct {
-	Op     string  `json:"op"`     // batch | disable | enable | advance | startchild
+	Op     string  `json:"op"`     // batch | batchstart | exitsup | disable | enable | advance | startchild
 	Faults [][]any `json:"faults"` // [[index(1-based), reason], ...]
 	I      int     `json:"i"`
 	Ms     int64   `json:"ms"`
+	Why    string  `json:"why"` // exitsup: reason of the exit signal sent to the supervisor
 }
 
 type Scenario struct {
@@ -72,6 +73,7 @@ type Line struct {
 	StopOrder    []int    `json:"stoporder"`
 	Orphans      int      `json:"orphans"`
 	Res          string   `json:"res"`
+	Why          string   `json:"why"` // exitsup: the reason the supervisor was told to stop with
 	Pids         []string `json:"pids"`
 	Extra        int      `json:"extra"` // simple-one-for-one: running instances beyond the number that was started
 }
@@ -570,6 +572,45 @@ func (r *Runner) Run(scn *Scenario) ([]Line, error) {
 				}
 				close(release)
 				ln.Faults = append(ln.Faults, []any{i, normReason(reason)})
+			}
+		case "exitsup":
+			// the supervisor is told to stop (exit signal with reason Why) while child I is busy in a callback which it then leaves with
+			// a reason of its own: the supervisor ends with the reason it was given, not with whatever its last child died of
+			if !supAlive() || sofo || len(step.Faults) != 1 {
+				continue
+			}
+			{
+				i := int(step.Faults[0][0].(float64))
+				r2 := step.Faults[0][1].(string)
+				pi, oki := before[i]
+				if !oki {
+					continue
+				}
+				entered, release := make(chan struct{}), make(chan struct{})
+				r.Node.Send(pi, gated.Cmd{Fn: func(*gated.Scripted) error {
+					close(entered)
+					<-release
+					switch r2 {
+					case "normal":
+						return gen.TerminateReasonNormal
+					case "shutdown":
+						return gen.TerminateReasonShutdown
+					}
+					return errors.New("R:" + r2)
+				}})
+				select {
+				case <-entered:
+				case <-time.After(time.Second):
+				}
+				var why error = gen.TerminateReasonShutdown
+				if step.Why != "shutdown" {
+					why = errors.New("R:" + step.Why)
+				}
+				r.Node.SendExit(supPid, why)
+				time.Sleep(3 * time.Millisecond)
+				close(release)
+				ln.Faults = append(ln.Faults, []any{i, normReason(r2)})
+				ln.Why = normReason(step.Why)
 			}
 		case "startchild":
 			if !supAlive() || !sofo {
